@@ -47,10 +47,31 @@ pub struct Workspace {
     pub members: Vec<String>,
 }
 
+/// Name of the shared guest runtime crate (checking allocator + `rt`), compiled once per
+/// workspace with optimisation (the allocator's ledger scans are hot).
+pub const RT_CRATE: &str = "e3guestrt";
+
 impl Workspace {
     pub fn new(tag: &str) -> Workspace {
+        Workspace::new_with(tag, false)
+    }
+
+    /// `low32`: back the guest heap by an arena below 2 GiB (resource world, see guest/ckalloc.rs).
+    pub fn new_with(tag: &str, low32: bool) -> Workspace {
         let root = scratch_root().join(tag);
         std::fs::create_dir_all(&root).unwrap_or_else(|e| vcommon::machinery(&format!("mkdir {}: {e}", root.display())));
+        let rt = root.join(RT_CRATE);
+        let default = if low32 { "default = [\"low32\"]\n" } else { "" };
+        write_if_different(
+            &rt.join("Cargo.toml"),
+            &format!("[package]\nname = \"{RT_CRATE}\"\nversion = \"0.0.0\"\nedition = \"2021\"\n\n[lib]\npath = \"src/lib.rs\"\n\n[features]\nlow32 = []\n{default}"),
+        );
+        write_if_different(
+            &rt.join("src/lib.rs"),
+            "#![allow(unused, unused_unsafe, static_mut_refs, unsafe_op_in_unsafe_fn, clippy::all)]\npub mod ckalloc;\npub mod rt;\n",
+        );
+        write_if_different(&rt.join("src/ckalloc.rs"), GUEST_ALLOC);
+        write_if_different(&rt.join("src/rt.rs"), GUEST_RT);
         Workspace { root, members: Vec::new() }
     }
 
@@ -64,17 +85,17 @@ impl Workspace {
         let repo = vcommon::repo_root();
         let feats: Vec<String> = c.wit_bindgen_features.iter().map(|f| format!("\"{f}\"")).collect();
         let manifest = format!(
-            "[package]\nname = \"{}\"\nversion = \"0.0.0\"\nedition = \"2021\"\n\n[lib]\ncrate-type = [\"staticlib\"]\npath = \"src/lib.rs\"\n\n[features]\nstd = []\n\n[dependencies]\nwit-bindgen = {{ path = \"{repo}/crates/guest-rust\", default-features = false, features = [{}] }}\n",
+            "[package]\nname = \"{}\"\nversion = \"0.0.0\"\nedition = \"2021\"\n\n[lib]\ncrate-type = [\"staticlib\"]\npath = \"src/lib.rs\"\n\n[features]\nstd = []\n\n[dependencies]\n{RT_CRATE} = {{ path = \"../{RT_CRATE}\" }}\nwit-bindgen = {{ path = \"{repo}/crates/guest-rust\", default-features = false, features = [{}] }}\n",
             c.name,
             feats.join(", ")
         );
         write_if_different(&dir.join("Cargo.toml"), &manifest);
         let lib = "#![allow(unused, unused_unsafe, static_mut_refs, unsafe_op_in_unsafe_fn, clippy::all)]\n\
-                   pub mod ckalloc;\npub mod rt;\n#[allow(warnings)]\npub mod bindings;\npub mod user;\n\n\
+                   pub use e3guestrt::{ckalloc, rt};\n#[allow(warnings)]\npub mod bindings;\npub mod user;\n\n\
                    #[global_allocator]\nstatic GLOBAL: ckalloc::Checking = ckalloc::Checking;\n";
         write_if_different(&dir.join("src/lib.rs"), lib);
-        write_if_different(&dir.join("src/ckalloc.rs"), GUEST_ALLOC);
-        write_if_different(&dir.join("src/rt.rs"), GUEST_RT);
+        let _ = std::fs::remove_file(dir.join("src/ckalloc.rs"));
+        let _ = std::fs::remove_file(dir.join("src/rt.rs"));
         write_if_different(&dir.join("src/bindings.rs"), &c.bindings);
         write_if_different(&dir.join("src/user.rs"), &c.user);
         for (n, t) in &c.extra_files {
@@ -84,9 +105,10 @@ impl Workspace {
     }
 
     pub fn finish_manifest(&self) {
-        let members: Vec<String> = self.members.iter().map(|m| format!("\"{m}\"")).collect();
+        let mut members: Vec<String> = self.members.iter().map(|m| format!("\"{m}\"")).collect();
+        members.push(format!("\"{RT_CRATE}\""));
         let manifest = format!(
-            "[workspace]\nresolver = \"2\"\nmembers = [{}]\n\n[profile.dev]\nopt-level = 0\ndebug = false\ndebug-assertions = true\noverflow-checks = true\nincremental = false\ncodegen-units = 16\n",
+            "[workspace]\nresolver = \"2\"\nmembers = [{}]\n\n[profile.dev]\nopt-level = 0\ndebug = false\ndebug-assertions = true\noverflow-checks = true\nincremental = false\ncodegen-units = 16\n\n[profile.dev.package.{RT_CRATE}]\nopt-level = 2\ndebug-assertions = false\noverflow-checks = false\n",
             members.join(", ")
         );
         write_if_different(&self.root.join("Cargo.toml"), &manifest);
